@@ -239,34 +239,35 @@ def check(ctx):
         else:
             s = g.r.uniform(-0.3, 0.3)
         S, T_, V = (torch.tensor([x], dtype=dt) for x in (s, t, sig))
+        prec = g.choice([1e-6, 1e-6, 1e-9, 1e-4])
         try:
             if which == "european":
                 m = BSEuropeanOption(strike=k)
                 p = m.price(S, T_, V)
-                iv = m.implied_volatility(S, T_, p)
+                iv = m.implied_volatility(S, T_, p, precision=prec)
             elif which == "european_put":
                 m = BSEuropeanOption(call=False, strike=k)
                 p = m.price(S, T_, V)
-                iv = m.implied_volatility(S, T_, p)
+                iv = m.implied_volatility(S, T_, p, precision=prec)
             elif which == "lookback":
                 m = BSLookbackOption(strike=k)
                 M = torch.tensor([max(s, 0.0) + g.choice([0.0, 0.1])], dtype=dt)
                 p = m.price(S, M, T_, V)
-                iv = m.implied_volatility(S, M, T_, p)
+                iv = m.implied_volatility(S, M, T_, p, precision=prec)
             elif which == "binary":
                 m = BSEuropeanBinaryOption(strike=k)
                 p = m.price(S, T_, V)
-                iv = m.implied_volatility(S, T_, p)
+                iv = m.implied_volatility(S, T_, p, precision=prec)
             else:
                 m = BSAmericanBinaryOption(strike=k)
                 M = torch.tensor([s], dtype=dt)
                 p = m.price(S, M, T_, V)
-                iv = m.implied_volatility(S, M, T_, p)
+                iv = m.implied_volatility(S, M, T_, p, precision=prec)
         except Exception as e:  # noqa
             ctx.fail("implied_volatility raised for a price generated by the same module", {"which": which, "s": s, "t": t, "sigma": sig, "k": k},
                      key=f"implied_volatility:{which}:error", detail=repr(e)[:200])
             continue
-        case = {"which": which, "s": s, "t": t, "sigma": sig, "k": k}
+        case = {"which": which, "s": s, "t": t, "sigma": sig, "k": k, "precision": prec}
         ctx.case(case, True, tag="iv_" + which)
         ctx.traces += 1
         # binary prices are not monotone in sigma over the whole bracket even for s<0: accept any sigma' reproducing the price
@@ -276,9 +277,9 @@ def check(ctx):
                 p2 = float(m.price(S, T_, torch.tensor([got], dtype=dt)))
             else:
                 p2 = float(m.price(S, M, T_, torch.tensor([got], dtype=dt)))
-            if abs(p2 - float(p)) > 1e-4:
+            if abs(p2 - float(p)) > 1e-4 * (prec / 1e-6 if prec > 1e-6 else 1.0):
                 ctx.fail("implied volatility does not reproduce the price", case, key=f"implied_volatility:{which}", detail={"iv": got, "price": float(p), "reprice": p2})
-        elif abs(got - sig) > 2e-6:
+        elif abs(got - sig) > 2 * prec:
             # ill-conditioned points (vega ~ 0): the price cannot resolve sigma in double precision;
             # there any volatility reproducing the price to float resolution is a correct answer
             if which == "lookback":
